@@ -165,7 +165,8 @@ struct DeckSpec {
     std::vector<Region> regions;
     std::vector<int> satnum, imbnum;
     bool endscale = false, threepoint = false, hyst = false;
-    int krModel = 0;
+    int krModel = 0;                                               // EHYSTR item 2: 0/1 Carlson, 2/3 Killough (non-wetting phase)
+    double modParam = 0.1;                                         // EHYSTR item 4
     std::string ehystrFlag = "KR";
     bool hasTolcrit = false; double tolcrit = 1e-6;
     bool maskD[17] = {}, maskI[17] = {};
@@ -202,7 +203,7 @@ static std::string deckText(const DeckSpec& d)
         s += "SOF3\n"; for (auto& R : d.regions) table(s, {&R.so, &R.krow3, &R.krog3});
     }
     if (d.endscale) s += std::string("SCALECRS\n ") + (d.threepoint ? "YES" : "NO") + " /\n";
-    if (d.hyst) s += "EHYSTR\n 0.1 " + std::to_string(d.krModel) + " 1.0 0.1 " + d.ehystrFlag + " /\n";
+    if (d.hyst) s += "EHYSTR\n 0.1 " + std::to_string(d.krModel) + " 1.0 " + num(d.modParam) + " " + d.ehystrFlag + " /\n";
     auto arrays = [&](const bool* mask, const std::vector<std::array<double, 17>>& arr, const char* prefix) {
         for (int k = 0; k < 17; ++k) {
             if (!mask[k]) continue;
@@ -236,7 +237,7 @@ static std::array<double, 17> randomEndpoints(vh::Rng& r, int style)
     return v;
 }
 
-struct GenCfg { int family = 0; int endscale = -1; int hyst = -1; bool strict = false; bool allowSmallKr = true; bool consistent = false; int shared = -1; };
+struct GenCfg { int family = 0; int endscale = -1; int hyst = -1; bool strict = false; bool allowSmallKr = true; bool consistent = false; int shared = -1; int maxKrModel = 3; bool stone = false; };
 
 static DeckSpec makeDeck(vh::Rng& r, const GenCfg& g)
 {
@@ -247,7 +248,9 @@ static DeckSpec makeDeck(vh::Rng& r, const GenCfg& g)
     d.endscale = g.endscale < 0 ? r.coin(2, 3) : g.endscale;
     d.hyst = g.hyst < 0 ? r.coin(1, 2) : g.hyst;
     d.threepoint = d.endscale && r.coin();
-    d.krModel = r.range(0, 1);
+    d.krModel = r.range(0, g.maxKrModel);
+    d.modParam = r.coin(1, 3) ? 0.1 : 0.4 * r.unit();
+    if (g.stone) d.threePhaseModel = r.range(0, 2);
     d.hasTolcrit = g.allowSmallKr && r.coin(1, 3);
     bool anyPcMask = false;
     for (int k = 0; k < 17; ++k) { d.maskD[k] = d.endscale && r.coin(); d.maskI[k] = d.endscale && d.hyst && r.coin(); }
@@ -353,11 +356,12 @@ static std::string flagsStr(const DeckSpec& d)
     return f;
 }
 
-// "<fam> <tolcrit> <flags> <maskD> <tablesD> <arraysD> <maskI> <tablesI> <arraysI>"
+// "<fam> <tolcrit> <flags> <modParam> <maskD> <tablesD> <arraysD> <maskI> <tablesI> <arraysI>"
 static std::string cellSpec(const DeckSpec& d, const Opm::EclipseState& es, int cell)
 {
     const double tolcrit = es.runspec().saturationFunctionControls().minimumRelpermMobilityThreshold();
-    std::string s = std::to_string(d.family) + " " + hx(tolcrit) + " " + flagsStr(d) + " " + maskStr(d.maskD) + " " +
+    const double modParam = d.hyst ? es.runspec().hysterPar().modParamTrapped() : 0.0;
+    std::string s = std::to_string(d.family) + " " + hx(tolcrit) + " " + flagsStr(d) + " " + hx(modParam) + " " + maskStr(d.maskD) + " " +
                     tablesStr(es, d.family, d.satnum[cell] - 1) + " " + arraysStr(es, d.maskD, "", cell);
     if (d.hyst) s += " " + maskStr(d.maskI) + " " + tablesStr(es, d.family, d.imbnum[cell] - 1) + " " + arraysStr(es, d.maskI, "I", cell);
     else s += " - - -";
@@ -519,9 +523,11 @@ static void corrDecks(vh::Rng& r, vh::Sink& sink, int ndecks)
             std::string a;
             auto probeAll = [&]() {
                 auto& dp = defaultParams(*b.mgr, cell);
-                std::string t = !d.hyst ? std::string("-/-/-/-") :
+                std::string t = !d.hyst ? std::string("-/-/-/-") : d.krModel <= 1 ?
                                 hx(dp.oilWaterParams().krnSwMdc()) + "/" + hx(dp.oilWaterParams().deltaSwImbKrn()) + "/" +
-                                hx(dp.gasOilParams().krnSwMdc()) + "/" + hx(dp.gasOilParams().deltaSwImbKrn());
+                                hx(dp.gasOilParams().krnSwMdc()) + "/" + hx(dp.gasOilParams().deltaSwImbKrn()) :
+                                hx(dp.oilWaterParams().krnSwMdc()) + "/" + hx(dp.oilWaterParams().Sncrt()) + "/" +
+                                hx(dp.gasOilParams().krnSwMdc()) + "/" + hx(dp.gasOilParams().Sncrt());
                 for (const Sat& p : probes) {
                     const Vals v = evaluate(*b.mgr, cell, p);
                     t += "/" + hx(v.krw) + ":" + hx(v.kro) + ":" + hx(v.krg) + ":" + hx(v.pcow) + ":" + hx(v.pcgo);
@@ -532,7 +538,7 @@ static void corrDecks(vh::Rng& r, vh::Sink& sink, int ndecks)
             for (const Sat& s : hist) { b.mgr->updateHysteresis(fluidState(s), cell); a += " " + probeAll(); }
             sink.emit("satdeck.eval " + spec + " " + satsStr(hist) + " " + satsStr(probes), a);
             sink.count("cell.family=" + std::to_string(d.family)); sink.count(std::string("cell.endscale=") + (d.endscale ? (d.threepoint ? "3pt" : "2pt") : "off"));
-            sink.count(std::string("cell.hyst=") + (d.hyst ? "carlson" + std::to_string(d.krModel) : "off"));
+            sink.count(std::string("cell.hyst=") + (d.hyst ? (d.krModel <= 1 ? "carlson" : "killough") + std::to_string(d.krModel) : "off"));
         }
         sink.count("decks");
         sink.count("decks.regions=" + std::to_string(d.regions.size()));
@@ -617,20 +623,20 @@ static std::map<std::string, long> propDecks(vh::Rng& r, vh::PropLog& log, int n
         // ---------------------------------------------------------------- (2) family I == family II, all options
         {
             vh::Rng q(sub ^ 0x5555);
-            GenCfg g; g.allowSmallKr = q.coin(1, 4);
+            GenCfg g; g.allowSmallKr = q.coin(1, 4); g.stone = true;
             DeckSpec d1 = makeDeck(q, g);
             DeckSpec d2 = d1;
             d1.family = 1; d2.family = 2;
             Built b1 = build(d1, deckText(d1));
             Built b2 = build(d2, deckText(d2));
             for (int cell = 0; cell < d1.ncell; ++cell) {
-                const double swl = defaultParams(*b1.mgr, cell).Swl();
+                const double swl = b1.mgr->oilWaterScaledEpsInfoDrainage(cell).Swl;
                 std::vector<Sat> hist = d1.hyst ? satHistory(q, q.range(0, 6), q.range(0, 2)) : std::vector<Sat>{};
                 for (size_t step = 0; step <= hist.size(); ++step) {
                     if (step > 0) { b1.mgr->updateHysteresis(fluidState(hist[step - 1]), cell); b2.mgr->updateHysteresis(fluidState(hist[step - 1]), cell); }
                     for (const Sat& s : probesFor(q, swl, 12)) {
                         const Vals u = evaluate(*b1.mgr, cell, s), v = evaluate(*b2.mgr, cell, s);
-                        const std::string where = tag(cell) + "endscale=" + std::to_string(d1.endscale) + std::to_string(d1.threepoint) + " hyst=" + std::to_string(d1.hyst) + " step " + std::to_string(step) + " " + satStr(s);
+                        const std::string where = tag(cell) + "endscale=" + std::to_string(d1.endscale) + std::to_string(d1.threepoint) + " hyst=" + std::to_string(d1.hyst) + "/" + std::to_string(d1.krModel) + " stone=" + std::to_string(d1.threePhaseModel) + " step " + std::to_string(step) + " " + satStr(s);
                         chk(same(u.krw, v.krw, 1e-9, 1e-12), "deck.family.krw", where + " I " + num(u.krw) + " II " + num(v.krw));
                         chk(same(u.kro, v.kro, 1e-7, 1e-10), "deck.family.kro", where + " I " + num(u.kro) + " II " + num(v.kro));
                         chk(same(u.krg, v.krg, 1e-9, 1e-12), "deck.family.krg", where + " I " + num(u.krg) + " II " + num(v.krg));
@@ -756,7 +762,7 @@ static std::map<std::string, long> propDecks(vh::Rng& r, vh::PropLog& log, int n
         // ---------------------------------------------------------------- (5) hysteresis (Carlson), per cell
         {
             vh::Rng q(sub ^ 0x7777);
-            GenCfg g; g.endscale = q.coin(1, 3); g.hyst = 1; g.allowSmallKr = false; g.strict = true; g.consistent = true;
+            GenCfg g; g.endscale = q.coin(1, 3); g.hyst = 1; g.allowSmallKr = false; g.strict = true; g.consistent = true; g.maxKrModel = 1;
             DeckSpec d = makeDeck(q, g);
             for (int c = 10; c < 14; ++c) d.maskD[c] = d.maskI[c] = false;          // no three-point vertical scaling: curves stay invertible
             DeckSpec dn = d; dn.hyst = false;                                        // the drainage curves alone
